@@ -37,6 +37,10 @@ def c14_differential(binary, tier, seed):
             for l in open(out):
                 r = json.loads(l)
                 checks += r.get("checks", 0)
+                if r.get("coalesced"):
+                    info["watch_versions_superseded_before_delivery"] = info.get("watch_versions_superseded_before_delivery", 0) + r["coalesced"]
+                if r.get("timing_unsafe"):
+                    info["sequences_cut_short_process_held_up_near_an_expiry"] = info.get("sequences_cut_short_process_held_up_near_an_expiry", 0) + 1
                 results.append({"seed": r["seed"], "family": "c14diff", "log_hash": "-", "viol": r.get("viol") or [],
                                 "stats": {"faults": {}, "probes": {"c14diff_ops": len(r.get("ops", []))}, "terms": 1, "interleave_hash": "diff-%d" % r["seed"]},
                                 "judged": {"C14": r.get("checks", 0)},
